@@ -12,6 +12,8 @@ Open Scope Q_scope.
 Definition rel_tol : Q := 1 # 1000000000.            (* 1e-9 *)
 Definition band : Q := 1 # 1000000.                   (* 1e-6 cell *)
 Definition n_slack : Q := 1 # 1000000.
+(* evaluation hook of the model: 48 significant bits per arithmetic step (see Rotator.v) *)
+Definition rnd : Q -> Q := rnd_bits 48.
 
 Inductive c18_case :=
 | CRot (pmin pmax : vec3) (n : n3) (nv : nat) (perm : list nat) (vals : list Q)
@@ -42,18 +44,18 @@ Fixpoint last_rot (ops : list op) (cur : option (option n3)) : option (option n3
 
 Definition check_vals (nv : nat) (perm : list nat) (orig : fld) (R : mat3) (n' : n3)
            (model obs : arr) (vtol : Q) : bool :=
-  let '(gx, gy, gz) := grids orig in
+  let '(gx, gy, gz) := grids rnd orig in
   let c := cellv orig in
-  let ra := memo4 (f_n orig) nv (rot_arr nv R perm (f_val orig)) in
+  let ra := memo4 (f_n orig) nv (rot_arr rnd nv R perm (f_val orig)) in
   forallb (fun i => forallb (fun j => forallb (fun k =>
-    let p := back_pos orig R n' i j k in
+    let p := back_pos rnd orig R n' i j k in
+    let m := model i j k in
     let inband := near_edge gx (vx c) (vx p) || near_edge gy (vy c) (vy p) || near_edge gz (vz c) (vz p) in
     let pc := V3 (clamp1 gx (vx p)) (clamp1 gy (vy p)) (clamp1 gz (vz p)) in
+    let alt := if inband then interp_at rnd gx gy gz (f_n orig) ra pc else fun _ => 0 in
     forallb (fun cc =>
       let o := obs i j k cc in
-      close_to vtol (model i j k cc) o ||
-      (inband && (close_to vtol 0 o ||
-                  close_to vtol (interp_at gx gy gz (f_n orig) (fun a b d => ra a b d cc) pc) o)))
+      close_to vtol (m cc) o || (inband && (close_to vtol 0 o || close_to vtol (alt cc) o)))
       (iota 0 nv)) (iota 0 (n2 n'))) (iota 0 (n1 n'))) (iota 0 (n0 n')).
 
 Definition check_C18 (c : c18_case) : bool :=
@@ -61,7 +63,7 @@ Definition check_C18 (c : c18_case) : bool :=
   | CRefuse nvdim ndim mapping accepted => Bool.eqb (rotator_accepts nvdim ndim mapping) accepted
   | CRot pmin pmax n nv perm vals ops obs_n obs_pmin obs_pmax obs_vals =>
       let orig := Fld pmin pmax n (arr_of_list n nv vals) in
-      let final := run nv perm orig (fun _ => obs_n) ops in
+      let final := run rnd nv perm orig (fun _ => obs_n) ops in
       (length vals =? ncells n * nv)%nat && (length obs_vals =? ncells obs_n * nv)%nat &&
       match last_rot ops None with
       | None =>
@@ -76,7 +78,7 @@ Definition check_C18 (c : c18_case) : bool :=
           vclose (rel_tol * cscale) (f_pmax (st_field final)) obs_pmax &&
           match nopt with
           | Some ne => n3_eqb ne obs_n
-          | None => n_adm n_slack R orig obs_n
+          | None => n_adm rnd n_slack R orig obs_n
           end &&
           check_vals nv perm orig R obs_n (f_val (st_field final)) (arr_of_list obs_n nv obs_vals)
                      (rel_tol * vscale)
